@@ -87,9 +87,30 @@ class ExportSim:
             if faults:
                 ops.append({'op': 'export', 'fmt': fmt, 'target': target, 'retry': True,
                             'name': f'geom{k}' if rng.random() < 0.6 else f'retry{k}', 'faults': [], 'end': 'exit'})
-        return {'engine': self.name, 'world': world, 'ops': ops}
+        plan = {'engine': self.name, 'world': world, 'ops': ops}
+        # history: another dataset of the same convention with the same number of cells but another shape, exported
+        # earlier by the same process (anything remembered per convention / per size must not leak into this export)
+        if world['conv'] != 'ugrid' and world.get('nx') != world.get('ny') and rng.random() < 0.5:
+            import random
+            rng2 = random.Random(rng.randrange(1 << 30))
+            for _ in range(400):
+                other = worldgen.gen_world(rng2, convs=[world['conv']], max_n=5 if big else 4, max_vars=1, with_time=False,
+                                           allow_perm=False, materialise='memory')
+                if (other.get('nx'), other.get('ny')) == (world.get('ny'), world.get('nx')):
+                    for op in ops:
+                        if rng.random() < 0.7:
+                            op['earlier'] = True
+                    plan['earlier_world'] = other
+                    break
+        return plan
 
     def shrink(self, plan):
+        if plan.get('earlier_world') is not None:
+            p = copy.deepcopy(plan)
+            p.pop('earlier_world')
+            for op in p['ops']:
+                op.pop('earlier', None)
+            yield p
         yield from common.ddmin_ops(plan)
         for k, op in enumerate(plan['ops']):
             if op['target'] not in ('str',):
@@ -109,7 +130,7 @@ class ExportSim:
         sig = []
         judged = False
         for k, step in enumerate(plan['ops']):
-            res = lifetimes.run_lifetime(_export_lifetime, plan['world'], step, scratch)
+            res = lifetimes.run_lifetime(_export_lifetime, plan['world'], step, scratch, plan.get('earlier_world') if step.get('earlier') else None)
             if res['status'] in ('harness_error', 'timeout'):
                 out.harness_error = f'step {k}: {res["error"]}'
                 return
@@ -122,6 +143,9 @@ class ExportSim:
             fired = [p for kk, p in res['events'] if kk == 'fault_fired']
             for f in fired:
                 out.stats[f"fault.{f['seam']}.{f['kind']}"] += 1
+            for kk, p_ in res['events']:
+                if kk == 'probe':
+                    out.stats[f"probe.{p_['name']}"] += 1
             acked = bool(done) and done[0]['acked']
             sig.append((step['fmt'], step['target'], step['end'], tuple((f['seam'], f['kind']) for f in fired), acked))
             out.stats[f'fmt.{step["fmt"]}'] += 1
@@ -226,10 +250,25 @@ def _paths(step, scratch):
     return base, base + EXT[step['fmt']]
 
 
-def _export_lifetime(ctx, world_spec, step, scratch):
+def _export_lifetime(ctx, world_spec, step, scratch, earlier_spec=None):
     import pathlib
 
     import emsarray.operations.geometry as geometry
+    if earlier_spec is not None:
+        # an export of another dataset earlier in this process (fault-free, thrown away)
+        other = worldgen.World(earlier_spec).dataset()
+        tmp = os.path.join(scratch, 'earlier_export')
+        try:
+            {'geojson': geometry.write_geojson, 'wkt': geometry.write_wkt, 'wkb': geometry.write_wkb,
+             'shapefile': geometry.write_shapefile}[step['fmt']](other, tmp + ('.shp' if step['fmt'] == 'shapefile' else '.out'))
+            ctx.emit('probe', name='earlier_export_same_convention_same_size_other_shape')
+        except Exception as e:
+            ctx.emit('earlier_export_raised', exc=type(e).__name__)
+        for ext in ('.out', '.shp', '.shx', '.dbf', '.prj'):
+            try:
+                os.remove(tmp + ext)
+            except OSError:
+                pass
     ctx.full_flush = True
     ctl = seams.FaultController(ctx)
     seams.install_fopen_seam(ctl, geometry)
